@@ -371,6 +371,13 @@ func (s *Server) newSocket(
 		socket.close(ReasonTransportError, err)
 		return nil
 	}
+
+	// The server may have been closed while this handshake was in progress, after `Close`
+	// took its snapshot of the sockets. Don't leave this socket alive on a closed server.
+	if s.IsClosed() {
+		socket.Close()
+		return nil
+	}
 	return socket
 }
 
